@@ -66,21 +66,15 @@ where
 // NOTE: yes, I know the = / => distinction is ugly
 macro_rules! like_try_into {
     ($self:ident, $source:ty = $target:ty, $w:ident, $m:ident, $c:ident) => {{
-        let min = <$target>::min_value() as $source;
-        let max = <$target>::max_value() as $source;
-        if *$self <= max && *$self >= min {
-            $w.$m(*$self as $target)
-        } else {
-            Err(bad($self, $c))
+        match <$target>::try_from(*$self) {
+            Ok(v) => $w.$m(v),
+            Err(_) => Err(bad($self, $c)),
         }
     }};
     ($self:ident, $source:ty => $target:ty, $w:ident, $m:ident, $c:ident) => {{
-        let min = <$target>::min_value() as $source;
-        let max = <$target>::max_value() as $source;
-        if *$self <= max && *$self >= min {
-            $w.$m::<LittleEndian>(*$self as $target)
-        } else {
-            Err(bad($self, $c))
+        match <$target>::try_from(*$self) {
+            Ok(v) => $w.$m::<LittleEndian>(v),
+            Err(_) => Err(bad($self, $c)),
         }
     }};
 }
@@ -157,7 +151,9 @@ impl ToMysqlValue for u8 {
                 }
             }
             ColumnType::MYSQL_TYPE_TINY => {
-                assert!(!signed);
+                if signed {
+                    return Err(bad(self, c));
+                }
                 w.write_u8(*self)
             }
             _ => Err(bad(self, c)),
@@ -174,25 +170,27 @@ impl ToMysqlValue for i8 {
                 if signed {
                     w.write_i64::<LittleEndian>(i64::from(*self))
                 } else {
-                    w.write_u64::<LittleEndian>(*self as u64)
+                    like_try_into!(self, _ => u64, w, write_u64, c)
                 }
             }
             ColumnType::MYSQL_TYPE_LONG | ColumnType::MYSQL_TYPE_INT24 => {
                 if signed {
                     w.write_i32::<LittleEndian>(i32::from(*self))
                 } else {
-                    w.write_u32::<LittleEndian>(*self as u32)
+                    like_try_into!(self, _ => u32, w, write_u32, c)
                 }
             }
             ColumnType::MYSQL_TYPE_SHORT | ColumnType::MYSQL_TYPE_YEAR => {
                 if signed {
                     w.write_i16::<LittleEndian>(i16::from(*self))
                 } else {
-                    w.write_u16::<LittleEndian>(*self as u16)
+                    like_try_into!(self, _ => u16, w, write_u16, c)
                 }
             }
             ColumnType::MYSQL_TYPE_TINY => {
-                assert!(signed);
+                if !signed {
+                    return Err(bad(self, c));
+                }
                 w.write_i8(*self)
             }
             _ => Err(bad(self, c)),
@@ -220,7 +218,9 @@ impl ToMysqlValue for u16 {
                 }
             }
             ColumnType::MYSQL_TYPE_SHORT | ColumnType::MYSQL_TYPE_YEAR => {
-                assert!(!signed);
+                if signed {
+                    return Err(bad(self, c));
+                }
                 w.write_u16::<LittleEndian>(*self)
             }
             _ => Err(bad(self, c)),
@@ -237,18 +237,20 @@ impl ToMysqlValue for i16 {
                 if signed {
                     w.write_i64::<LittleEndian>(i64::from(*self))
                 } else {
-                    w.write_u64::<LittleEndian>(*self as u64)
+                    like_try_into!(self, _ => u64, w, write_u64, c)
                 }
             }
             ColumnType::MYSQL_TYPE_LONG | ColumnType::MYSQL_TYPE_INT24 => {
                 if signed {
                     w.write_i32::<LittleEndian>(i32::from(*self))
                 } else {
-                    w.write_u32::<LittleEndian>(*self as u32)
+                    like_try_into!(self, _ => u32, w, write_u32, c)
                 }
             }
             ColumnType::MYSQL_TYPE_SHORT | ColumnType::MYSQL_TYPE_YEAR => {
-                assert!(signed);
+                if !signed {
+                    return Err(bad(self, c));
+                }
                 w.write_i16::<LittleEndian>(*self)
             }
             _ => Err(bad(self, c)),
@@ -269,7 +271,9 @@ impl ToMysqlValue for u32 {
                 }
             }
             ColumnType::MYSQL_TYPE_LONG | ColumnType::MYSQL_TYPE_INT24 => {
-                assert!(!signed);
+                if signed {
+                    return Err(bad(self, c));
+                }
                 w.write_u32::<LittleEndian>(*self)
             }
             _ => Err(bad(self, c)),
@@ -286,11 +290,13 @@ impl ToMysqlValue for i32 {
                 if signed {
                     w.write_i64::<LittleEndian>(i64::from(*self))
                 } else {
-                    w.write_u64::<LittleEndian>(*self as u64)
+                    like_try_into!(self, _ => u64, w, write_u64, c)
                 }
             }
             ColumnType::MYSQL_TYPE_LONG | ColumnType::MYSQL_TYPE_INT24 => {
-                assert!(signed);
+                if !signed {
+                    return Err(bad(self, c));
+                }
                 w.write_i32::<LittleEndian>(*self)
             }
             _ => Err(bad(self, c)),
@@ -304,7 +310,9 @@ impl ToMysqlValue for u64 {
         let signed = !c.colflags.contains(ColumnFlags::UNSIGNED_FLAG);
         match c.coltype {
             ColumnType::MYSQL_TYPE_LONGLONG => {
-                assert!(!signed);
+                if signed {
+                    return Err(bad(self, c));
+                }
                 w.write_u64::<LittleEndian>(*self)
             }
             _ => Err(bad(self, c)),
@@ -318,7 +326,9 @@ impl ToMysqlValue for i64 {
         let signed = !c.colflags.contains(ColumnFlags::UNSIGNED_FLAG);
         match c.coltype {
             ColumnType::MYSQL_TYPE_LONGLONG => {
-                assert!(signed);
+                if !signed {
+                    return Err(bad(self, c));
+                }
                 w.write_i64::<LittleEndian>(*self)
             }
             _ => Err(bad(self, c)),
